@@ -1,6 +1,6 @@
 #!/bin/bash
 # seedrun.sh [name-filter]: for each kept seeded change, apply it to /repo, run the property's quick
-# check, undo it, and report DETECTED/MISSED (updates seeded/<name>/.detected and .rule).
+# check (or the tier named in meta.json), undo it, and report DETECTED/MISSED (updates seeded/<name>/.detected and .rule).
 cd /verif
 export GOFLAGS=-mod=mod GOPROXY=off GOSUMDB=off GOTOOLCHAIN=local; unset GOWORK
 ./run.sh build || exit 2
@@ -10,7 +10,8 @@ for d in seeded/*/; do
   case "$name" in *"${1:-}"*) ;; *) continue;; esac
   prop=${name%%-*}
   if ! git -C /repo apply /verif/$d/patch.diff 2>/dev/null; then echo "SEED $name: patch does not apply"; continue; fi
-  out=$(bin/orbcheck -repo /repo -verif /verif -prop $prop -tier quick -no-evidence 2>&1); rc=$?
+  tier=$(python3 -c "import json,sys; print(json.load(open(sys.argv[1])).get('tier','quick'))" "$d/meta.json" 2>/dev/null || echo quick)
+  out=$(bin/orbcheck -repo /repo -verif /verif -prop $prop -tier "$tier" -no-evidence 2>&1); rc=$?
   git -C /repo checkout -- .
   det="MISSED"; [ $rc -eq 1 ] && det="DETECTED"
   rule=$(echo "$out" | grep -A1 "^VIOLATION" | grep "kind=" | head -2 | sed 's/^ *//' | cut -c1-200 | tr '\n' '|')
